@@ -152,6 +152,14 @@ void check_seed(Emit& e, SeedView const& s, Opts const& o)
     }
     Flat const full = ioc::flat(gil::const_view(ref));
     long const W = full.w, H = full.h;
+    // samples the file leaves undefined do not take part in whole-image comparisons
+    ioc::undef_mask() = ioc::UndefMask();
+    if (s.expected && long(s.expected->size()) == W * H * s.exp_channels && s.exp_w == W && s.exp_h == H)
+    {
+        ioc::UndefMask um; um.w = W; um.h = H; um.px.assign(size_t(W * H), 0); bool any_undef = false;
+        for (long i = 0; i < W * H; ++i) for (int c = 0; c < s.exp_channels; ++c) if ((*s.expected)[size_t(i * s.exp_channels + c)] < 0) { um.px[size_t(i)] = 1; any_undef = true; }
+        if (any_undef) ioc::undef_mask() = um;
+    }
 
     // ---- tie to the independent encoder
     if (s.expected && e.begin(S + "/spec"))
@@ -218,6 +226,15 @@ void check_seed(Emit& e, SeedView const& s, Opts const& o)
         {
             for (Rect const& r : all_rects(W, H))
             {
+                // samples the file leaves undefined (RLE delta skips; expected == -1) hold whatever the reader's buffers held:
+                // a sub-rectangle is compared with the crop of the full read only where every sample is defined by the file
+                if (s.expected && long(s.expected->size()) == s.exp_w * s.exp_h * s.exp_channels && s.exp_w == W && s.exp_h == H)
+                {
+                    bool undef = false;
+                    for (long y = r.y0; y < r.y0 + r.dy && !undef; ++y) for (long x = r.x0; x < r.x0 + r.dx && !undef; ++x)
+                        for (int c = 0; c < s.exp_channels; ++c) if ((*s.expected)[size_t((y * W + x) * s.exp_channels + c)] < 0) undef = true;
+                    if (undef) { e.count("subrects_skipped_file_leaves_samples_undefined"); continue; }
+                }
                 std::string rid = rect_id(r);
                 settings_t st(gil::point_t(r.x0, r.y0), gil::point_t(r.dx, r.dy));
                 Flat want = ioc::crop(full, r.x0, r.y0, r.dx, r.dy);
